@@ -408,6 +408,56 @@ def check_invalid(case, ctx):
     raise Violation("invalid grid() call (%s) accepted: %r" % (case["kind"], res))
 
 
+# ---------------------------------------------------------------- large grids, profiles and scatters
+@st.composite
+def large_cases(draw):
+    return dict(region=draw(gen.regions(max_exp=4)), shape=[draw(st.sampled_from([1, 211, 600, 1500])), draw(st.sampled_from([1, 307, 900, 2000]))], ncomp=draw(st.integers(1, 3)),
+                projection=draw(proj_desc), size=draw(st.sampled_from([5000, 50000])), seed=draw(st.integers(0, 10**6)), gridder=draw(st.sampled_from(["analytic", "trend", "checker"])))
+
+
+def check_large(case, ctx):
+    region = case["region"]
+    if case["gridder"] == "analytic":
+        g, ncomp = Analytic(ncomp=case["ncomp"]), case["ncomp"]
+    else:
+        g, _ = make_gridder(dict(case, gridder=case["gridder"]))
+        ncomp = 1
+    proj = make_projection(with_span(case["projection"], region))
+    kw = {} if proj is None else dict(projection=proj)
+    nr, nc = case["shape"]
+    if nr * nc > 1_500_000:
+        nr = min(nr, 600)
+    ds = quiet(g.grid, region=tuple(region), shape=(nr, nc), **kw)
+    east, north = np.linspace(region[0], region[1], nc) if nc > 1 else np.array([region[0]]), np.linspace(region[2], region[3], nr) if nr > 1 else np.array([region[2]])
+    tol = 8 * np.finfo("float64").eps
+    ctx.check(ds.sizes["northing"] == nr and ds.sizes["easting"] == nc, "grid of shape (%d, %d) has sizes %r", nr, nc, dict(ds.sizes))
+    ctx.check(np.all(np.abs(ds.easting.values - east) <= tol * max(abs(region[0]), abs(region[1]), 1e-300)) and np.all(np.abs(ds.northing.values - north) <= tol * max(abs(region[2]), abs(region[3]), 1e-300)),
+              "coordinates of a %d x %d grid are not evenly spaced over the region", nr, nc)
+    pe, pn = np.meshgrid(ds.easting.values, ds.northing.values)
+    if proj is not None:
+        pe, pn = proj(pe, pn)
+    names = [("scalars",), ("east_component", "north_component"), ("east_component", "north_component", "vertical_component")][ncomp - 1]
+    for c, name in enumerate(names):
+        if case["gridder"] == "analytic":
+            exp = field(c, pe, pn)
+        elif case["gridder"] == "checker":
+            rw, re_, rs, rn = region
+            exp = 10.0 * np.sin(2 * np.pi / ((re_ - rw) / 2) * pe) * np.cos(2 * np.pi / ((rn - rs) / 2) * pn)
+        else:
+            exp = np.asarray(g.predict((pe.ravel(), pn.ravel()))).reshape(pe.shape)
+        got = ds[name].values
+        bad = ~(np.abs(got - exp) <= 1e-12 * np.maximum(np.abs(exp), 1.0))
+        if bad.any():
+            i, j = np.argwhere(bad)[0]
+            raise Violation("%s[%d, %d] of a %d x %d grid = %r but the prediction at (easting[%d], northing[%d]) is %r" % (name, i, j, nr, nc, float(got[i, j]), j, i, float(exp[i, j])))
+    # a long scatter and a long profile
+    sc = quiet(g.scatter, region=tuple(region), size=case["size"], random_state=case["seed"] % 1000, **kw)
+    se, sn = vd.scatter_points(tuple(region), case["size"], random_state=case["seed"] % 1000)
+    ctx.check(len(sc) == case["size"] and np.array_equal(sc["easting"].values, se) and np.array_equal(sc["northing"].values, sn), "scatter of %d points is not scatter_points(region, size, random_state)", case["size"])
+    ctx.label(case["gridder"], "%dx%d" % (nr, nc), "proj_" + (case["projection"]["kind"] if proj is not None else "none"))
+    ctx.nt(nr * nc >= 1000)
+
+
 SUBCHECKS = [
     Sub("grid", check_grid, strategy=grid_cases(), quick=300, thorough=2000, shards_quick=4,
         doc="grid(): dims, coordinate vectors, value[i, j] = f(easting[j], northing[i]) at the (projected) node, extra coordinates, names, metadata, default region, explicit coordinates"),
@@ -417,4 +467,6 @@ SUBCHECKS = [
         doc="scatter(): coordinates equal scatter_points(region, size, random_state), reproducible, data at the (projected) points"),
     Sub("invalid", check_invalid, strategy=invalid_cases(), quick=100, thorough=300, shards_thorough=2,
         doc="coordinates together with region/shape/spacing, a missing region, name-count mismatches and non-meshgrid coordinates are rejected"),
+    Sub("large", check_large, strategy=large_cases(), quick=10, thorough=60, heavy=True,
+        doc="grids of up to 1500 x 2000 nodes (also single row/column, with projections) and scatters of up to 50 000 points against closed forms"),
 ]
